@@ -52,12 +52,16 @@ pub struct Stats {
     pub digests: HashSet<u64>,
     pub digests_interleaved: HashSet<u64>,
     pub violating_executions: u64,
+    pub diverged: u64,
     pub violations: Vec<Violation>,
 }
 
 impl Stats {
     fn add(&mut self, o: &Outcome, prefix_len: usize) {
         self.executions += 1;
+        if o.diverged > 0 {
+            self.diverged += 1;
+        }
         if o.violation.is_some() {
             record_violation(o, self);
         }
@@ -89,6 +93,7 @@ impl Stats {
         self.capped |= o.capped;
         self.unexplored_jobs += o.unexplored_jobs;
         self.violating_executions += o.violating_executions;
+        self.diverged += o.diverged;
         self.violations.extend(o.violations.iter().cloned());
         self.digests.extend(o.digests.iter().copied());
         self.digests_interleaved.extend(o.digests_interleaved.iter().copied());
@@ -100,6 +105,7 @@ impl Stats {
             "stale": self.stale, "max_decisions": self.max_decisions, "capped": self.capped,
             "unexplored_jobs": self.unexplored_jobs,
             "violating_executions": self.violating_executions,
+            "diverged": self.diverged,
             "violations": self.violations.iter().map(|v| json!({"message": v.message, "cost": v.cost, "choices": v.choices, "replay": v.replay})).collect::<Vec<_>>(),
             "digests": self.digests.iter().collect::<Vec<_>>(),
             "digests_interleaved": self.digests_interleaved.iter().collect::<Vec<_>>(),
@@ -122,6 +128,7 @@ impl Stats {
             capped: v["capped"].as_bool().unwrap_or(false),
             unexplored_jobs: g("unexplored_jobs"),
             violating_executions: g("violating_executions"),
+            diverged: g("diverged"),
             violations: v["violations"].as_array().map(|a| a.iter().map(|vi| Violation {
                 property: String::new(), scenario: String::new(),
                 message: vi["message"].as_str().unwrap_or("").to_string(),
